@@ -796,6 +796,7 @@ void mc_jobs(Tier t, std::vector<std::string> &jobs)
 	auto add = [&](const char *mode, int ns) {
 		for (int k = 0; k < NKIND; ++k) for (int c = 0; c < 2; ++c) for (int s = 0; s < ns; ++s)
 			jobs.push_back(std::string(kname[k]) + (c ? "++" : "") + fmt("/%s/%d/%d", mode, s, ns)); };
+	jobs.push_back("property_match");
 	if (t == Quick) for (auto &p : plan_q) add(p.mode, p.slices);
 	else for (auto &p : plan_t) add(p.mode, p.slices);
 }
@@ -809,8 +810,62 @@ static void ledger_check(Run &r, const Model &m, const std::string &what)
 }
 static void ledger_check(Run &r, const Model &m, size_t op) { if (!ledger_live()) r.count("ledger: everything released"); else ledger_check(r, m, m.opname(m.ops[op])); }
 
+// ------------------------------------------------------------------ name matching (mpt_property_match) on synthetic tables
+// every table of 1..3 names over {a,b}^(1..3) x every candidate over {a,b,A}^(0..3) x match length -1..3.
+// Reference: S = entries equal to the candidate in the first mlen characters (whole string for mlen < 0), case-insensitive.
+// S empty => must refuse; S = {e} => e; |S| > 1 => refuse, or the entry returned must equal the candidate completely.
+static void gen_strings(const char *alpha, int minlen, int maxlen, std::vector<std::string> &out)
+{
+	size_t na = strlen(alpha);
+	for (int l = minlen; l <= maxlen; ++l) { size_t n = 1; for (int i = 0; i < l; ++i) n *= na; for (size_t k = 0; k < n; ++k) { std::string t; size_t q = k; for (int i = 0; i < l; ++i) { t += alpha[q % na]; q /= na; } out.push_back(t); } }
+}
+static bool match_case(Run &r, const std::vector<std::string> &tn, const std::vector<std::string> &cands, const Vec &v)
+{
+	size_t nt = v[0]; std::vector<const char *> tab; std::string desc = "{";
+	for (size_t i = 0; i < nt; ++i) { tab.push_back(tn[v[1 + i]].c_str()); desc += (i ? "," : "") + tn[v[1 + i]]; }
+	desc += "}";
+	const std::string &c = cands[v[4]]; int mlen = (int) v[5] - 1;
+	std::vector<int> S;
+	for (size_t i = 0; i < nt; ++i) if (mlen < 0 ? !strcasecmp(c.c_str(), tab[i]) : !strncasecmp(c.c_str(), tab[i], mlen)) S.push_back((int) i);
+	r.hint("match|property_match");
+	int ret = mpt::mpt_property_match(c.c_str(), mlen, tab.data(), nt);
+	r.hint("");
+	std::string what = fmt("mpt_property_match(\"%s\", %d, ", c.c_str(), mlen) + desc + fmt(") = %d", ret);
+	if (r.replaying) r.note("%s ; %zu entries match", what.c_str(), S.size());
+	if (ret >= (int) nt) { r.violation("match|property_match|-|index-out-of-range", what); return false; }
+	if (ret < 0) { r.count(S.empty() ? "match: unknown name refused" : (S.size() == 1 ? "match: unique name refused (not flagged)" : "match: ambiguous name refused")); return true; }
+	if (S.empty()) { r.violation("match|property_match|unknown-name|accepted", what + ": no entry matches"); return false; }
+	if (S.size() == 1) { if (ret != S[0]) { r.violation("match|property_match|unique-name|wrong-entry", what + fmt(": the only matching entry is %d", S[0])); return false; } r.count("match: unique name resolved"); return true; }
+	if (strcasecmp(c.c_str(), tab[ret])) { r.violation("match|property_match|ambiguous-prefix|resolved-silently", what + fmt(": %zu entries match and entry %d is not the candidate itself", S.size(), ret)); return false; }
+	r.count("match: ambiguous prefix resolved to the exact name");
+	return true;
+}
+static void match_job(Run &r, const Vec *replay)
+{
+	std::vector<std::string> tn, cands;
+	gen_strings("ab", 1, 3, tn); gen_strings("abA", 0, 3, cands);
+	if (replay) { if (replay->size() == 6 && (*replay)[0] <= 3 && (*replay)[4] < cands.size()) { r.enter(*replay, ""); match_case(r, tn, cands, *replay); } return; }
+	for (const char *k : { "match: unknown name refused", "match: ambiguous name refused", "match: unique name resolved", "nontrivial" }) r.require(k);
+	r.additive = false;
+	for (uint64_t nt = 1; nt <= 3; ++nt) {
+		uint64_t lim[3] = { tn.size(), nt > 1 ? tn.size() : 1, nt > 2 ? tn.size() : 1 };
+		for (uint64_t a = 0; a < lim[0]; ++a) for (uint64_t b = 0; b < lim[1]; ++b) for (uint64_t c = 0; c < lim[2]; ++c) {
+			if (r.expired()) return;
+			++r.states;
+			for (uint64_t ci = 0; ci < cands.size(); ++ci) for (uint64_t ml = 0; ml <= 4; ++ml) {
+				Vec v = { nt, a, b, c, ci, ml };
+				if (!r.enter(v, "")) continue;
+				match_case(r, tn, cands, v);
+				++r.transitions; if (nt > 1) r.count("nontrivial");
+			}
+		}
+	}
+	r.sample("mpt_property_match: tables of 1..3 names over {a,b}^(1..3) x candidates over {a,b,A}^(0..3) x match length -1..3");
+}
+
 void mc_explore(Run &r, const std::string &job)
 {
+	if (job == "property_match") { match_job(r, 0); return; }
 	JobSpec js = parse_job(job);
 	Model m(js.kind, js.cxx);
 	for (const char *k : { "nontrivial", "accepted", "refused", "frame condition checked", "reset: default differential checked", "read-back vs independent conversion checked",
@@ -885,6 +940,7 @@ void mc_explore(Run &r, const std::string &job)
 
 void mc_replay(Run &r, const std::string &job, const Vec &v)
 {
+	if (job == "property_match") { match_job(r, &v); return; }
 	JobSpec js = parse_job(job);
 	Model m(js.kind, js.cxx);
 	r.enter(v, "");
